@@ -502,6 +502,11 @@ class Judge:
             return "mid-" + _kind3(tt[i])
 
         def whole(i):
+            if tt[i] == tokmod.FSTRING_START:
+                return "FSTRING"
+            if tt[i] == tokmod.STRING:  # a whole literal is missing: which prefix spelling
+                pre = "".join(sorted(set(tstr[i][:tstr[i].index(tstr[i].lstrip("rRbBuU")[:1])].lower())))
+                return "STRING:" + (pre or "plain")
             return "STRING" if _kind3(tt[i]) == "STRING" else S.tok_feature(i)
         for rel, a, b in (("start-late", s0, r0), ("end-early", r1, s1)):
             if a < b:  # part of the construct is missing from the region
@@ -599,7 +604,7 @@ class Judge:
                 n["containment_pairs"] += 1
                 a0, a1 = anc.region
                 if not (a0 <= r0 <= r1 <= a1):
-                    self.report(f"c|{'before' if r0 < a0 else ''}{'after' if r1 > a1 else ''}",
+                    self.report(f"c|{'before' if r0 < a0 else ''}{'after' if r1 > a1 else ''}{'inverted' if r0 > r1 else ''}",
                                 f"region of {cname} is not inside the region of its ancestor {cls_name(anc)}",
                                 region=[r0, r1], ancestor=[a0, a1], text=src[r0:r1][:120], context=_ctx(src, a0, a1))
             if isinstance(node, ast.Module):
@@ -802,6 +807,8 @@ def _check(src, res, origin, vio_limit, level):
             site = crash_site(e)
             exc = type(e).__name__
             key = "a|" + ("" if exc in _SEARCH_FAILED else exc + "|") + (cause or "direct")
+            if "witness" in origin:  # fixed input: the construct family it exercises is part of the signature
+                key += "|in:" + origin["witness"]
             report(key, f"get_patched_ast raised {core.exc_sig(e)}: {str(e)[:120]} while handling {site[0]} "
                    f"(searching {site[1]!r}); first suspicious token match: {cause}", excerpt=_excerpt_exc(src, e),
                    source=src if len(src) <= 3000 else None)
@@ -878,65 +885,63 @@ def _lossy_node(tree, src, patchedast):
 # One small valid module per construct family that the pinned tree is known to get wrong or that a mutant is
 # likely to break; run on every tier so that the set of reachable signature keys does not depend on the seed.
 WITNESSES = [
-    "x = 1_000\ny = 0b101\nz = 0B1\no = 0O17\nh = 0XFF\nf = 1_0.0\nc = 1_0j\nok = 0x1f + 0o7 + 1e5 + 2.5j + .5 + 5.\n",
-    "f(*args)\na = [*b, c]\n*d, e = c\nf(*(a or b))\ng(**kw)\ng(**(a or b))\nh = {**a, 'b': 1}\n",
-    "x = a,\ny = a, b,\nz = (a,)\nw = ()\nfor i in a,: pass\n",
-    "x = a,\nwith b:\n    pass\n",
-    "def f(a: int, b: str = 'x') -> None:\n    pass\n",
-    "def f(a, /, b, *args, c=1, **kw):\n    pass\n",
-    "def f(ab, /, b):\n    pass\n",
-    "g = lambda *a, k=1, **kw: a\nh = lambda x, /, y=2: x\n",
-    "def f(*, d=('#', ';')):\n    pass\n",
-    "def f(a, *, k=(1, 2), m=3):\n    return a\n",
-    "def f(a: Tuple[int, str], b):\n    pass\n",
-    "x = (f\"a{b}\"\n     f\"c{d}\")\ny = (\"a\"\n     f\"{b}\")\nz = ('a'\n     'b')\nw = 'a' 'b' \"c\"\nv = b'a' b'b'\n",
-    "x = f\"{{a}} {b}\"\ny = f\"b {b}\"\nz = f\"{a}}}\"\n",
-    "x = f\"{f'{a}'}\"\ny = f\"{a:>{w}}\"\nz = f\"{a!r:^10}\"\nw = f\"{a=}\"\nv = f'{d[\"k\"]}' f\"{d['k']}\"\nu = rf'{a}\\d'\n",
-    "x = f'''{\n    a\n}'''\ny = f\"{a  # comment\n}\"\n",
-    "class A(B, metaclass=M):\n    pass\nclass C(*bases, **kw):\n    pass\n",
-    "class A[T]:\n    pass\ndef f[T: int, *Ts, **P](x: T) -> T:\n    return x\ntype X[T] = list[T]\ntype Y = int\n",
-    "try:\n    a\nexcept E:\n    b\nelse:\n    c\nfinally:\n    d\n",
-    "try:\n    a\nexcept (E, F) as e:\n    b\nexcept:\n    c\n",
-    "try:\n    a\nexcept* E:\n    b\n",
-    "async def f():\n    r = [x async for x in y]\n    async with a as b, c:\n        await b\n    async for i in r:\n        yield i\n",
-    "def g():\n    (yield)\n    x = yield\n    y = yield from x\n    return *x, y\n",
-    "(a + b)\n(a).b\n((a))\n(a)(b)\n",
-    "with a as b, \\\n     c as d:\n    pass\nwith (a as b,\n      c as d):\n    pass\nwith (a, b):\n    pass\n",
-    "x = a[1::]\ny = a[::2, 1:2]\nz = a[*b]\nw = a[(1, 2)]\nv = a[...]\n",
-    "match x:\n    case (a, b):\n        pass\n",
-    "match x:\n    case [1, *rest] if rest:\n        pass\n    case {'k': v, **kw}:\n        pass\n"
-    "    case Point(x=0, y=0) | None:\n        pass\n    case str() as s:\n        pass\n    case -1 | 1+2j:\n        pass\n"
-    "    case m.K:\n        pass\n    case _:\n        pass\n",
-    "\ufb01 = 1\nx = \ufb01 + fi\n",
-    "\u00e9 = '\u00fc'  # \u00f1\n\u540d\u524d = \u00e9 . real\n",
-    "if a:\n    pass\nelif b:\n    pass\nelif c:\n    pass\nelse:\n    pass\n",
-    "@a.b(c)\n@d\ndef f(): pass\n@e\nclass C: pass\n",
-    "x = (\n    1  # one (\n)\ny = [  # ) ]\n    2,\n]\nz = {  # for x in y\n    'k': 3}\n",
-    "x = [a  # for b\n     for a in c  # if d\n     if a]\n",
-    "global a, b\ndef f():\n    v = 1\n    def g():\n        nonlocal v\n        v = 2\n",
-    "if (n := len(a)) > 1: pass\nwhile x: break\nfor i in y: continue\nelse: pass\n",
-    "from . import a\nfrom .. b import (c as d,\n    e)\nfrom ... import f\nimport a.b.c as d, e\nfrom m import *\n",
-    "x: int = 1\n(y): int\na.b: str = 's'\nc[0]: int\nx += 1\nx @= y\nx >>= 2\nx //= 3\nx **= 4\n",
-    "raise E from e\n",
-    "assert a, b\ndel a, (b), c[0], d.e\n",
-    "x = a if b else c\ny = not a\nz = a is not b\nw = a not in b\nv = -a ** ~b\nu = a < b <= c != d\nt = a and b or c\n",
-    "a = 1; b = 2;\nif a: c = 3; d = 4;\n",
-    "a = 1\r\nb = (2,\r\n     3)\r\n",
-    "if a:\n\tb = 1\n\tif c:\n\t\td = 2\n\x0ce = 3\n",
-    "x = 1 + \\\n    2\ny = a \\\n    .b\nassert x, \\\n    y\n",
-    "x = 'it''s' \"q\\\"q\" '''t\n'''\ny = r'\\d' R\"\\s\" u'u'\nyb = br'x' Rb\"y\"\nz = 'hash # inside'; w = \"paren ( inside\"  # real ' \"\n",
-    "print(a, end='')\nf(x for x in y)\nf((x for x in y), z)\nf(a)(b)[c].d\n",
-    "x = {1, 2}\ny = {k: v for k, v in z}\nw = {i for i in j if i}\nv = (i for i in j)\nu = [i for i in j for k in i if k]\n",
-    "class A:\n    'doc'\n    x: int = 1\n    def m(self): return super().m()[1:2, ::3].a\n",
-    "def h():\n    '''Doc.\n\n    for x in y: not code\n    '''\n    return 1\n",
-    "lambda: (yield)\nx = lambda: 0\ny = (lambda a, b=1: a)(2)\n",
-    "# -*- coding: latin-1 -*-\nx = '\u20ac'\n",
-    "del a, b,\n",
-    "m = f\"'{ # r'q\na}' t\"\n",
-    "raise E(f'{ # f\"{\nself.a} d \"p\"')\n",
-    "x = f\"{{({b})}}\"\n",
-    "async def case_(*\u03bb) -> lambda *if_: [T for d in n if typed.format]:\n    if (e.format or q,)():\n        pass\n",
-    "def g(*a) -> lambda *if_: [T for d in n if t.f]:\n    if (e.f or q,)():\n        pass\n",
+    ('numeric-literals', 'x = 1_000\ny = 0b101\nz = 0B1\no = 0O17\nh = 0XFF\nf = 1_0.0\nc = 1_0j\nok = 0x1f + 0o7 + 1e5 + 2.5j + .5 + 5.\n'),
+    ('star-args', "f(*args)\na = [*b, c]\n*d, e = c\nf(*(a or b))\ng(**kw)\ng(**(a or b))\nh = {**a, 'b': 1}\n"),
+    ('tuples-trailing-comma', 'x = a,\ny = a, b,\nz = (a,)\nw = ()\nfor i in a,: pass\n'),
+    ('with-after-trailing-comma', 'x = a,\nwith b:\n    pass\n'),
+    ('annotated-args', "def f(a: int, b: str = 'x') -> None:\n    pass\n"),
+    ('all-parameter-kinds', 'def f(a, /, b, *args, c=1, **kw):\n    pass\n'),
+    ('posonly-substring-name', 'def f(ab, /, b):\n    pass\n'),
+    ('lambda-parameters', 'g = lambda *a, k=1, **kw: a\nh = lambda x, /, y=2: x\n'),
+    ('kwonly-default-hash-string', "def f(*, d=('#', ';')):\n    pass\n"),
+    ('kwonly-default-tuple', 'def f(a, *, k=(1, 2), m=3):\n    return a\n'),
+    ('annotation-with-commas', 'def f(a: Tuple[int, str], b):\n    pass\n'),
+    ('implicit-concatenation', 'x = (f"a{b}"\n     f"c{d}")\ny = ("a"\n     f"{b}")\nz = (\'a\'\n     \'b\')\nw = \'a\' \'b\' "c"\nv = b\'a\' b\'b\'\n'),
+    ('fstring-brace-escape', 'x = f"{{a}} {b}"\ny = f"b {b}"\nz = f"{a}}}"\n'),
+    ('fstring-nested-and-spec', 'x = f"{f\'{a}\'}"\ny = f"{a:>{w}}"\nz = f"{a!r:^10}"\nw = f"{a=}"\nv = f\'{d["k"]}\' f"{d[\'k\']}"\nu = rf\'{a}\\d\'\n'),
+    ('fstring-multiline-field', 'x = f\'\'\'{\n    a\n}\'\'\'\ny = f"{a  # comment\n}"\n'),
+    ('class-keywords', 'class A(B, metaclass=M):\n    pass\nclass C(*bases, **kw):\n    pass\n'),
+    ('type-parameters', 'class A[T]:\n    pass\ndef f[T: int, *Ts, **P](x: T) -> T:\n    return x\ntype X[T] = list[T]\ntype Y = int\n'),
+    ('try-else-finally', 'try:\n    a\nexcept E:\n    b\nelse:\n    c\nfinally:\n    d\n'),
+    ('try-except', 'try:\n    a\nexcept (E, F) as e:\n    b\nexcept:\n    c\n'),
+    ('try-star', 'try:\n    a\nexcept* E:\n    b\n'),
+    ('async-constructs', 'async def f():\n    r = [x async for x in y]\n    async with a as b, c:\n        await b\n    async for i in r:\n        yield i\n'),
+    ('yield-forms', 'def g():\n    (yield)\n    x = yield\n    y = yield from x\n    return *x, y\n'),
+    ('parenthesized-expression-statements', '(a + b)\n(a).b\n((a))\n(a)(b)\n'),
+    ('with-items', 'with a as b, \\\n     c as d:\n    pass\nwith (a as b,\n      c as d):\n    pass\nwith (a, b):\n    pass\n'),
+    ('slices', 'x = a[1::]\ny = a[::2, 1:2]\nz = a[*b]\nw = a[(1, 2)]\nv = a[...]\n'),
+    ('match-tuple-pattern', 'match x:\n    case (a, b):\n        pass\n'),
+    ('match-patterns', "match x:\n    case [1, *rest] if rest:\n        pass\n    case {'k': v, **kw}:\n        pass\n    case Point(x=0, y=0) | None:\n        pass\n    case str() as s:\n        pass\n    case -1 | 1+2j:\n        pass\n    case m.K:\n        pass\n    case _:\n        pass\n"),
+    ('nfkc-identifier', 'ﬁ = 1\nx = ﬁ + fi\n'),
+    ('unicode-identifiers', "é = 'ü'  # ñ\n名前 = é . real\n"),
+    ('elif-chain', 'if a:\n    pass\nelif b:\n    pass\nelif c:\n    pass\nelse:\n    pass\n'),
+    ('decorators', '@a.b(c)\n@d\ndef f(): pass\n@e\nclass C: pass\n'),
+    ('comments-with-brackets', "x = (\n    1  # one (\n)\ny = [  # ) ]\n    2,\n]\nz = {  # for x in y\n    'k': 3}\n"),
+    ('comments-with-keywords', 'x = [a  # for b\n     for a in c  # if d\n     if a]\n'),
+    ('global-nonlocal', 'global a, b\ndef f():\n    v = 1\n    def g():\n        nonlocal v\n        v = 2\n'),
+    ('walrus-loops', 'if (n := len(a)) > 1: pass\nwhile x: break\nfor i in y: continue\nelse: pass\n'),
+    ('imports', 'from . import a\nfrom .. b import (c as d,\n    e)\nfrom ... import f\nimport a.b.c as d, e\nfrom m import *\n'),
+    ('annotated-and-augmented-assignment', "x: int = 1\n(y): int\na.b: str = 's'\nc[0]: int\nx += 1\nx @= y\nx >>= 2\nx //= 3\nx **= 4\n"),
+    ('raise-from', 'raise E from e\n'),
+    ('assert-del', 'assert a, b\ndel a, (b), c[0], d.e\n'),
+    ('operators', 'x = a if b else c\ny = not a\nz = a is not b\nw = a not in b\nv = -a ** ~b\nu = a < b <= c != d\nt = a and b or c\n'),
+    ('semicolons', 'a = 1; b = 2;\nif a: c = 3; d = 4;\n'),
+    ('crlf', 'a = 1\r\nb = (2,\r\n     3)\r\n'),
+    ('tabs-formfeed', 'if a:\n\tb = 1\n\tif c:\n\t\td = 2\n\x0ce = 3\n'),
+    ('backslash-continuation', 'x = 1 + \\\n    2\ny = a \\\n    .b\nassert x, \\\n    y\n'),
+    ('string-spellings', 'x = \'it\'\'s\' "q\\"q" \'\'\'t\n\'\'\'\ny = r\'\\d\' R"\\s" u\'u\'\nyb = br\'x\' Rb"y"\nz = \'hash # inside\'; w = "paren ( inside"  # real \' "\n'),
+    ('calls-genexp', "print(a, end='')\nf(x for x in y)\nf((x for x in y), z)\nf(a)(b)[c].d\n"),
+    ('displays-comprehensions', 'x = {1, 2}\ny = {k: v for k, v in z}\nw = {i for i in j if i}\nv = (i for i in j)\nu = [i for i in j for k in i if k]\n'),
+    ('class-body', "class A:\n    'doc'\n    x: int = 1\n    def m(self): return super().m()[1:2, ::3].a\n"),
+    ('docstring', "def h():\n    '''Doc.\n\n    for x in y: not code\n    '''\n    return 1\n"),
+    ('lambda-forms', 'lambda: (yield)\nx = lambda: 0\ny = (lambda a, b=1: a)(2)\n'),
+    ('coding-cookie-unencodable', "# -*- coding: latin-1 -*-\nx = '€'\n"),
+    ('del-trailing-comma', 'del a, b,\n'),
+    ('fstring-comment-quote', 'm = f"\'{ # r\'q\na}\' t"\n'),
+    ('fstring-comment-before-expr', 'raise E(f\'{ # f"{\nself.a} d "p"\')\n'),
+    ('fstring-brace-escape-parens', 'x = f"{{({b})}}"\n'),
+    ('return-annotation-lambda-async', 'async def case_(*λ) -> lambda *if_: [T for d in n if typed.format]:\n    if (e.format or q,)():\n        pass\n'),
+    ('return-annotation-lambda', 'def g(*a) -> lambda *if_: [T for d in n if t.f]:\n    if (e.f or q,)():\n        pass\n'),
 ]
 
 
@@ -1025,10 +1030,10 @@ def run_case(spec):
                 total += _check_variant(res, sn, rnd, spec["nmut"], {"file": rel, "snippet_variant": j})
             res.sample({"kind": "file", "path": rel, "chars": len(src), "violations": total})
         elif spec["kind"] == "seeds":
-            for k, sn in enumerate(WITNESSES):
+            for label, sn in WITNESSES:
                 if corpus.compiles(sn):
                     res.ev("witness_sources")
-                    total += check_source(sn, res, {"witness": k, "source": sn})
+                    total += check_source(sn, res, {"witness": label, "source": sn})
                 else:
                     res.ev("witness_invalid")
             for j in range(spec["n"]):
